@@ -149,18 +149,6 @@ theorem front_spec {m : Mem} {l : Hd} {xs : List Nat} (h : IsSL m l xs) : front 
     have hne : l.t ≠ l.h := fun e => by simpa using (h.tail_eq_head_iff.mp e)
     simp [front, hne, h.path.1]
 
-theorem lastOr_eq_getLast? (a : Nat) (xs : List Nat) : xs.getLast? = if xs = [] then none else some (lastOr a xs) := by
-  induction xs generalizing a with
-  | nil => simp
-  | cons x xs ih =>
-    simp only [lastOr_cons]
-    cases xs with
-    | nil => simp
-    | cons y ys =>
-      have := ih x
-      simp only [List.getLast?_cons_cons] at this ⊢
-      simpa using this
-
 theorem back_spec {m : Mem} {l : Hd} {xs : List Nat} (h : IsSL m l xs) : back m l = xs.getLast? := by
   rw [lastOr_eq_getLast? l.h xs]
   by_cases hx : xs = []
